@@ -423,6 +423,9 @@ class DtsAccessor:
                 ), f"{k} is not in the Dataset but is in `sections` and is required to compute temp_err"
 
         dataarray = None if label is None else self._obj[label]
+        subtract_from_dataarray = (
+            None if subtract_from_label is None else self._obj[subtract_from_label]
+        )
 
         if x_indices:
             x_coords = self.x
@@ -437,7 +440,7 @@ class DtsAccessor:
             sections=sections,
             func=func,
             dataarray=dataarray,
-            subtract_from_dataarray=subtract_from_label,
+            subtract_from_dataarray=subtract_from_dataarray,
             reference_dataset=reference_dataset,
             subtract_reference_from_dataarray=temp_err,
             ref_temp_broadcasted=ref_temp_broadcasted,
